@@ -374,7 +374,7 @@ func parseNumber[D []byte | string](d D, neg, sepallowed bool) (Decimal, error) 
 			cansgn = false
 			eneg = true
 		case c == '_':
-			if !cansep {
+			if !sepallowed || !cansep {
 				return Decimal{}, parseNumberSyntaxError{}
 			}
 
